@@ -15,6 +15,10 @@ def run(res):
     core.std_proof_coverage(res, "C02")
     l1.run(res, "C02", "pairpush", "Model.PairPush Model.PairPushOracle", "pp_model", "PP0", ORACLES,
            "PAIR/PUSH/PULL behaviour differs from the model (Model/PairPush.v)")
+    # below the granularity of the histories: several goroutines sending on one PUSH / PAIR socket at the same instant, through real
+    # sockets (harness/cmd/c11conc): exactly once, per-sender order, and no sender or queued message left behind
+    from .c11 import run_concurrent
+    res.coverage["concurrent_senders"] = run_concurrent(res, "C02", env={"C11CONC_ONLY": "pushpair"})
     res.coverage["trusted_base"] = core.COQ_TRUSTED + [
         "hand-written models Model/PairPush.v (+ Model/Chan.v) tied by correspondence at quiescence granularity: each stimulus is atomic in the model, so interleavings "
         "finer than one API call / one peer message / one completed transport send between quiescent points are covered neither by the theorems nor by the harness",
